@@ -328,6 +328,138 @@ Section Shard.
     rewrite Hb, app_nil_r in Hfl3. cbn [ev_flat] in Hfl3. rewrite app_nil_r in Hfl3.
     rewrite app_nil_r, sends_flat_app, Hfl3. exact Hfl.
   Qed.
+  (* ---------------------------------------------------- per-waiter accounting (C06) *)
+  Definition pend_for (w : N) (pd : list pend) : N :=
+    sumN (map pd_num (filter (fun p => N.eqb (pd_waiter p) w) pd)).
+  Definition tuples_for (w : N) (ts : list tuple) : N :=
+    sumN (map tp_count (filter (fun t => N.eqb (tp_waiter t) w) ts)).
+  Definition sent_for (w : N) (es : list send) : N := sumN (map (fun e => tuples_for w (s_tuples e)) es).
+  Definition ev_for (w : N) (e : ev) : N :=
+    match e with Recv data _ w' => if N.eqb w' w then count_list (S d) data else 0 | _ => 0 end.
+  Definition recv_for (w : N) (evs : list ev) : N := sumN (map (ev_for w) evs).
+
+  Lemma pend_for_le w pd : pend_for w pd <= pend_sum pd.
+  Proof.
+    unfold pend_for, pend_sum. induction pd as [|p tl IH]; cbn [filter map]; [cbn; lia|].
+    destruct (N.eqb (pd_waiter p) w); cbn [map]; rewrite ?sumN_cons; lia.
+  Qed.
+
+  Lemma apportion_for w pd : forall before after ts rest,
+    apportion pd before after = (ts, rest) ->
+    before <= after -> after - before <= pend_sum pd ->
+    tuples_for w ts + pend_for w rest = pend_for w pd.
+  Proof.
+    induction pd as [|p tl IH]; intros before after ts rest H Hle Hs; cbn [apportion] in H.
+    - injection H as <- <-. reflexivity.
+    - unfold pend_sum in Hs. cbn [map] in Hs. rewrite sumN_cons in Hs.
+      destruct (before <? after) eqn:E1.
+      + destruct (after <? before + pd_num p) eqn:E2.
+        * injection H as <- <-. unfold tuples_for, pend_for. cbn [filter map tp_waiter pd_waiter].
+          destruct (N.eqb (pd_waiter p) w); cbn [map tp_count pd_num]; rewrite ?sumN_cons; cbn [sumN fold_right]; lia.
+        * destruct (apportion tl (before + pd_num p) after) as [ts1 r1] eqn:E3.
+          injection H as <- <-. apply IH in E3; [|lia|unfold pend_sum; lia].
+          unfold tuples_for, pend_for in *. cbn [filter map tp_waiter].
+          destruct (N.eqb (pd_waiter p) w); cbn [map tp_count]; rewrite ?sumN_cons; lia.
+      + injection H as <- <-. unfold tuples_for. cbn. lia.
+  Qed.
+
+  Lemma send_items_for w c trig s s1 e :
+    Inv s -> 0 < cnt s -> send_items c trig s = (s1, e) ->
+    tuples_for w (s_tuples e) + pend_for w (pending s1) = pend_for w (pending s).
+  Proof.
+    intros [Hc Hp] Hpos. unfold send_items, split_batch.
+    destruct ((0 <? max_size c) && (max_size c <? cnt s)) eqn:E.
+    - apply andb_true_iff in E. destruct E as [E1 E2]. apply N.ltb_lt in E1, E2.
+      destruct (split copy_ident (max_size c) d (buf s)) as [dst rst].
+      destruct (apportion (pending s) (total_sent s) (total_sent s + max_size c)) as [ts pd'] eqn:Ea.
+      intros H. injection H as <- <-. cbn [pending s_tuples].
+      eapply apportion_for; [exact Ea|lia|lia].
+    - destruct (apportion (pending s) (total_sent s) (total_sent s + cnt s)) as [ts pd'] eqn:Ea.
+      intros H. injection H as <- <-. cbn [pending s_tuples].
+      eapply apportion_for; [exact Ea|lia|lia].
+  Qed.
+
+  Lemma flush_for w c : forall fuel s s1 es,
+    Inv s -> flush fuel c s = (s1, es) ->
+    sent_for w es + pend_for w (pending s1) = pend_for w (pending s).
+  Proof.
+    induction fuel as [|f IH]; intros s s1 es HI H; cbn [flush] in H.
+    - injection H as <- <-. reflexivity.
+    - destruct (must_flush c s) eqn:Em.
+      + destruct (send_items c 1 s) as [sa e] eqn:Es. destruct (flush f c sa) as [sb es'] eqn:Ef.
+        injection H as <- <-.
+        assert (Hpos : 0 < cnt s) by (unfold must_flush in Em; lia).
+        pose proof (send_items_for w _ _ _ _ _ HI Hpos Es) as H1.
+        apply send_items_spec in Es; [|exact HI|exact Hpos]. destruct Es as (HIa & _).
+        apply IH in Ef; [|exact HIa]. unfold sent_for in *. cbn [map]. rewrite sumN_cons. lia.
+      + injection H as <- <-. reflexivity.
+  Qed.
+
+  Lemma step_for w c s e s1 es :
+    Inv s -> step c s e = (s1, es) ->
+    sent_for w es + pend_for w (pending s1) = pend_for w (pending s) + ev_for w e.
+  Proof.
+    intros HI. destruct e as [data ctx w'| |]; cbn [step ev_for].
+    - unfold process_item. intros H.
+      set (n := count_list (S d) data) in *.
+      set (s0 := {| buf := if n =? 0 then buf s else buf s ++ data; cnt := cnt s + n;
+                    pending := pending s ++ [{| pd_ctx := ctx; pd_num := n; pd_waiter := w' |}];
+                    total_sent := total_sent s |}) in *.
+      assert (HI0 : Inv s0).
+      { destruct HI as [Hc Hp]. unfold Inv, s0. cbn [buf cnt pending]. split.
+        - destruct (n =? 0) eqn:En; [apply N.eqb_eq in En; lia|]. rewrite count_list_app. fold n. lia.
+        - unfold pend_sum in *. rewrite map_app, sumN_app. cbn. lia. }
+      apply (flush_for w) in H; [|exact HI0]. rewrite H. unfold s0. cbn [pending].
+      unfold pend_for. rewrite filter_app, map_app, sumN_app. cbn [filter pd_waiter].
+      destruct (N.eqb w' w); cbn; lia.
+    - destruct (0 <? cnt s) eqn:E.
+      + destruct (send_items c 0 s) as [sa x] eqn:Es. intros H. injection H as <- <-.
+        apply N.ltb_lt in E. pose proof (send_items_for w _ _ _ _ _ HI E Es) as H1.
+        unfold sent_for. cbn. lia.
+      + intros H. injection H as <- <-. cbn. lia.
+    - destruct (0 <? cnt s) eqn:E.
+      + destruct (send_items c 0 s) as [sa x] eqn:Es. intros H. injection H as <- <-.
+        apply N.ltb_lt in E. pose proof (send_items_for w _ _ _ _ _ HI E Es) as H1.
+        unfold sent_for. cbn. lia.
+      + intros H. injection H as <- <-. cbn. lia.
+  Qed.
+
+  Lemma sent_for_app w a b : sent_for w (a ++ b) = sent_for w a + sent_for w b.
+  Proof. unfold sent_for. rewrite map_app, sumN_app. reflexivity. Qed.
+
+  Lemma run_for w c : forall evs s s1 es,
+    valid c -> Inv s -> quiescent c s -> run c s evs = (s1, es) ->
+    sent_for w es + pend_for w (pending s1) = pend_for w (pending s) + recv_for w evs.
+  Proof.
+    induction evs as [|e tl IH]; intros s s1 es Hv HI Hq H; cbn [run] in H.
+    - injection H as <- <-. cbn. lia.
+    - destruct (step c s e) as [sa o1] eqn:E1. destruct (run c sa tl) as [sb o2] eqn:E2.
+      injection H as <- <-.
+      pose proof (step_for w _ _ _ _ _ HI E1) as H1.
+      apply step_spec in E1; try assumption. destruct E1 as (HIa & _ & Hqa & _).
+      apply IH in E2; try assumption.
+      rewrite sent_for_app. unfold recv_for in *. cbn [map]. rewrite sumN_cons. lia.
+  Qed.
+
+  (* Every waiter is told about exactly the items it submitted: never more along the way,
+     and all of them once the final flush has happened. *)
+  Lemma waiter_accounting w c evs s1 es :
+    valid c -> run c init evs = (s1, es) ->
+    sent_for w es + pend_for w (pending s1) = recv_for w evs.
+  Proof.
+    intros Hv H. apply (run_for w) in H; [|exact Hv|exact Inv_init|apply quiescent_init; exact Hv].
+    cbn in H. lia.
+  Qed.
+
+  Lemma waiter_accounting_final w c evs s1 es :
+    valid c -> run c init (evs ++ [Final]) = (s1, es) -> sent_for w es = recv_for w evs.
+  Proof.
+    intros Hv H. pose proof (waiter_accounting w _ _ _ _ Hv H) as Ha.
+    pose proof (shutdown_complete _ _ _ _ Hv H) as [Hz _].
+    pose proof (exactly_once _ _ _ _ Hv H) as ([_ Hp] & _).
+    pose proof (pend_for_le w (pending s1)) as Hle.
+    unfold recv_for in *. rewrite map_app, sumN_app in Ha. cbn in Ha. lia.
+  Qed.
 End Shard.
 
 Arguments Recv {d}. Arguments Timer {d}. Arguments Final {d}.
